@@ -366,6 +366,8 @@ def known_match(prop, viol, known):
         for key, val in m.items():
             if key == "kind":
                 ok = ok and env.get("kind") == val
+            elif key == "kinds":
+                ok = ok and env.get("kind") in val
             elif key == "checker":
                 ok = ok and viol.get("checker") == val
             elif key == "probe":
